@@ -3004,8 +3004,12 @@ static int report_value (
 	EGLPNUM_TYPE value)
 {
 	int rval = 0;
+	/* iterskip comes unvalidated from the host (QSset_reporter): never divide
+	 * by zero for skip < 10 */
+	const int skip = (lp->iterskip > 0) ? lp->iterskip : 1;
+	const int subskip = (skip >= 10) ? skip / 10 : 1;
 
-	if (it->sdisplay && it->itercnt % lp->iterskip == 0)
+	if (it->sdisplay && it->itercnt % skip == 0)
 	{
 		char buffer[1024];
 
@@ -3016,7 +3020,7 @@ static int report_value (
 	else
 	{
 		/* make sure ILLstring_report is called at least every 10 iterations */
-		if (it->itercnt % (lp->iterskip / 10))
+		if (it->itercnt % subskip)
 		{
 			rval = ILLstring_report (NULL, &lp->O->reporter);
 		}
